@@ -78,7 +78,7 @@ func runLexer(in, out string, _ []string) error {
 			case "code":
 				b.WriteString(fmt.Sprintf("name%d", i))
 			case "comment":
-				b.WriteString("# note")
+				b.WriteString([]string{"# note", "#", "# "}[(i+len(sc.Lines))%3])
 			}
 			b.WriteString("\n")
 		}
